@@ -10,8 +10,8 @@ import AranyaV.Gen.SyncWire
   bytes that follow the message); `receive_push` = the same on a decoded `Push`;
 * `SyncRequester::poll` state machine (with a storage provider that does not have the graph, so
   the command sample is empty);
-* `SyncResponder::receive` = `dispatch` (session check + state machine), `ready`, and `poll` with
-  a provider that does not have the graph.
+* `SyncResponder::receive` = `dispatch` (session check + state machine), `ready`, `poll` and
+  `push`; what storage contributes (is there a graph; is there more to send) is a parameter.
 
 The wire schemas (`syncType`, `syncResponseMessage`, …), the variant indices and field positions
 and the vector capacities are all generated from the Rust declarations (`Gen.SyncWire`).
@@ -358,18 +358,21 @@ inductive PState
 
 structure Responder where
   session : Option Nat
-  graphSet : Bool
+  /-- `graph_id`, set by a `SyncRequest` -/
+  graph : Option Bytes
   state : PState
+  /-- `message_index`: survives a new `SyncRequest` in the same session -/
+  msgIndex : Nat
   deriving Repr
 
-def Responder.new : Responder := { session := none, graphSet := false, state := .new }
+def Responder.new : Responder := { session := none, graph := none, state := .new, msgIndex := 0 }
 
 /-- `SyncResponder::receive` = `dispatch` -/
 def Responder.dispatch (p : Responder) (msg : RequestMsg) : Responder × Except SyncErr Unit :=
   let p1 := if p.session = none then { p with session := some msg.session } else p
   if p1.session ≠ some msg.session then (p1, .error .sessionMismatch)
   else match msg with
-    | .syncRequest _ _ _ _ => ({ p1 with state := .start, graphSet := true }, .ok ())
+    | .syncRequest _ g _ _ => ({ p1 with state := .start, graph := some g }, .ok ())
     | .requestMissing _ _ | .syncResume _ _ _ => ({ p1 with state := .reset }, .error .unsupportedRequest)
     | .endSession _ => ({ p1 with state := .stopped }, .ok ())
 
@@ -378,27 +381,62 @@ def Responder.ready (p : Responder) : Bool :=
   | .reset | .start | .send => true
   | _ => false
 
-/-- `SyncResponder::poll` against a provider that does not have the graph -/
-def Responder.poll (p : Responder) : Responder × Except SyncErr Bytes :=
+/-- what a successful `poll`/`push` wrote: a message whose bytes the model knows, or a
+`SyncResponse`/`Push` carrying commands read from storage (only its header is modelled) -/
+inductive PollOut
+  | bytes (b : Bytes)
+  | response (session index : Nat)
+  | push (session index : Nat)
+  | empty
+  deriving Repr
+
+def syncEndBytes (s idx : Nat) : Bytes :=
+  enc syncResponseMessage (.variant SyncResponseMessage_SyncEnd
+    (.tuple (mkFields 3 [(SyncResponseMessage_SyncEnd_session_id, .nat s),
+      (SyncResponseMessage_SyncEnd_max_index, .nat idx),
+      (SyncResponseMessage_SyncEnd_remaining, .bool false)])))
+
+def endSessionBytes (s : Nat) : Bytes :=
+  enc syncResponseMessage (.variant SyncResponseMessage_EndSession
+    (.tuple (mkFields 1 [(SyncResponseMessage_EndSession_session_id, .nat s)])))
+
+/-- `get_next`: `more` = storage still has segments to send (`next_send < to_send.len()`), the one
+fact about storage the message-level model takes as a parameter -/
+def Responder.getNext (p : Responder) (more : Bool) : Responder × Except SyncErr PollOut :=
+  match p.session with
+  | none => (p, .error .bug)
+  | some s =>
+    if more then ({ p with msgIndex := p.msgIndex + 1 }, .ok (.response s p.msgIndex))
+    else ({ p with state := .idle }, .ok (.bytes (syncEndBytes s p.msgIndex)))
+
+/-- `SyncResponder::poll`; `world` = the graph the storage provider has (if any) -/
+def Responder.poll (p : Responder) (world : Option Bytes) (more : Bool) :
+    Responder × Except SyncErr PollOut :=
   match p.state with
   | .new | .idle | .stopped => (p, .error .notReady)
   | .start =>
-    if p.graphSet then ({ p with state := .reset }, .error .noSuchStorage)
-    else ({ p with state := .reset }, .error .bug)
-  | .send =>
-    -- unreachable without storage (`Start` never reaches `Send`); `get_next` with nothing to send
-    match p.session with
-    | none => ({ p with state := .idle }, .error .bug)
-    | some s =>
-      ({ p with state := .idle }, .ok (enc syncResponseMessage (.variant SyncResponseMessage_SyncEnd
-        (.tuple (mkFields 3 [(SyncResponseMessage_SyncEnd_session_id, .nat s),
-          (SyncResponseMessage_SyncEnd_max_index, .nat 0),
-          (SyncResponseMessage_SyncEnd_remaining, .bool false)])))))
+    match p.graph with
+    | none => ({ p with state := .reset }, .error .bug)
+    | some g =>
+      if world = some g then Responder.getNext { p with state := .send } more
+      else ({ p with state := .reset }, .error .noSuchStorage)
+  | .send => p.getNext more
   | .reset =>
     match p.session with
     | none => ({ p with state := .stopped }, .error .bug)
-    | some s =>
-      ({ p with state := .stopped }, .ok (enc syncResponseMessage (.variant SyncResponseMessage_EndSession
-        (.tuple (mkFields 1 [(SyncResponseMessage_EndSession_session_id, .nat s)])))))
+    | some s => ({ p with state := .stopped }, .ok (.bytes (endSessionBytes s)))
+
+/-- `SyncResponder::push`; `nonempty` = storage yielded at least one command to push -/
+def Responder.push (p : Responder) (world : Option Bytes) (nonempty : Bool) :
+    Responder × Except SyncErr PollOut :=
+  match p.graph with
+  | none => ({ p with state := .reset }, .error .notReady)
+  | some g =>
+    if world ≠ some g then ({ p with state := .reset }, .error .noSuchStorage)
+    else if nonempty then
+      match p.session with
+      | none => (p, .error .bug)
+      | some s => ({ p with msgIndex := p.msgIndex + 1 }, .ok (.push s p.msgIndex))
+    else (p, .ok .empty)
 
 end AranyaV.SyncMsg
